@@ -152,7 +152,7 @@ impl KMonitor for C03 {
 
 // ---------------------------------------------------------------- C12
 
-fn accounting_projection(c: &SrtlaConnection) -> String {
+pub fn accounting_projection(c: &SrtlaConnection) -> String {
     let mut log: Vec<(i32, u64)> = c.packet_log.iter().map(|(k, v)| (*k, *v)).collect();
     log.sort_unstable();
     format!(
